@@ -135,8 +135,13 @@ def gen(n, seed):
 def apply_to(root, m):
     path = os.path.join(root, m["file"])
     lines = open(path).read().split("\n")
-    assert lines[m["line"] - 1] == m["old"], (m["id"], "source moved")
-    lines[m["line"] - 1] = m["new"]
+    i = m["line"] - 1
+    if i >= len(lines) or lines[i] != m["old"]:
+        # the file moved under the mutant (a later commit): the same line, uniquely, within 60 lines
+        near = [j for j in range(max(0, i - 60), min(len(lines), i + 60)) if lines[j] == m["old"]]
+        assert len(near) == 1, (m["id"], "source moved")
+        i = near[0]
+    lines[i] = m["new"]
     open(path, "w").write("\n".join(lines))
 
 
